@@ -49,6 +49,16 @@ CHECKS = {
         "units": [unit("c03-root", "root", ["zz_verif_c03_test.go"], "^TestVerifC03", shards={"quick": 12, "thorough": 16})],
         "assumptions": ["holders do not know ord(QR_n); equalisers that need it are not part of the adversary class"],
     },
+    "C04": {
+        "level": "exploration",
+        "units": [unit("c04-root", "root", ["zz_verif_c04_test.go"], "^TestVerifC04", shards={"quick": 12, "thorough": 16})],
+        "assumptions": ["zero-knowledge of the responses themselves is not decidable by enumeration; what is decided is that no hidden value or its hash exponent occurs as a leaf or substring of what the holder sends"],
+    },
+    "C05": {
+        "level": "exploration",
+        "units": [unit("c05-root", "root", ["zz_verif_c05_test.go"], "^TestVerifC05", shards={"quick": 12, "thorough": 16})],
+        "assumptions": ["math/big ProbablyPrime (Baillie-PSW + Miller-Rabin) decides primality in the reference predicate"],
+    },
     "_FIX": {
         "level": "other",
         "units": [unit("genfix", "root", [], "^TestVerifGenFixtures$", env={"VERIF_GENFIX": "1"}, timeout=1800)],
